@@ -213,7 +213,9 @@ CHECKS = {
              "on the span, so that decomposition / scale-invariance / perfect-estimate theorems hold for the concrete "
              "model with NO hypothesis on the projection, end to end for every output of the exact bss_eval_sources "
              "incl. the permutation; normal equations are always consistent and the lstsq fall-back (elimination with free "
-             "unknowns set to 0) is total and least-squares for every input (solveAny_normal_equations, projectAny_total); "
+             "unknowns set to 0) is total and least-squares for every input (solveAny_normal_equations, projectAny_total) and "
+             "returns the signal of any exact solution, lstsq's minimum-norm one included (projectAny_eq_of_solution); the "
+             "product-of-ratios argmax of the model is the first argmax of the mean SIR in dB (bestPermMul_is_first_argmax_db); "
              "_project_images is _project channel by channel. The exact model is tied to the "
              "real _project, _project_images, _bss_decomp_mtifilt(_images), the criteria and bss_eval_sources/_images "
              "(forced filter length 1..3, cached-G path, lstsq fall-back) by correspondence at 1e-9.",
